@@ -10,6 +10,9 @@ pub struct Counting;
 
 static LIVE: AtomicUsize = AtomicUsize::new(0);
 static PEAK: AtomicUsize = AtomicUsize::new(0);
+/// a second, independent peak for the per-call CPU monitor (fw::lib_call), so that its windows do
+/// not disturb the memory oracle's
+static PEAK_CALL: AtomicUsize = AtomicUsize::new(0);
 static ALLOCS: AtomicU64 = AtomicU64::new(0);
 static CEILING: AtomicUsize = AtomicUsize::new(usize::MAX);
 static TRIPPED: AtomicBool = AtomicBool::new(false);
@@ -24,6 +27,9 @@ fn on_alloc(size: usize) {
             Ok(_) => break,
             Err(p) => peak = p,
         }
+    }
+    if live > PEAK_CALL.load(Ordering::Relaxed) {
+        PEAK_CALL.fetch_max(live, Ordering::Relaxed);
     }
     if live > CEILING.load(Ordering::Relaxed) && !TRIPPED.swap(true, Ordering::SeqCst) {
         // No allocation allowed here: write a fixed message with a raw syscall and leave.
@@ -82,6 +88,18 @@ pub fn mark() -> usize {
 /// (pass the value `mark()` returned).
 pub fn peak_since(mark_live: usize) -> usize {
     PEAK.load(Ordering::Relaxed).saturating_sub(mark_live)
+}
+
+/// window of the per-call CPU monitor: peak := live
+pub fn mark_call() -> usize {
+    let live = LIVE.load(Ordering::Relaxed);
+    PEAK_CALL.store(live, Ordering::Relaxed);
+    live
+}
+
+/// growth of live bytes (peak over the mark) since `mark_call()`
+pub fn peak_since_call(mark_live: usize) -> usize {
+    PEAK_CALL.load(Ordering::Relaxed).saturating_sub(mark_live)
 }
 
 pub fn live() -> usize {
